@@ -913,6 +913,8 @@ func (s *AbsfsNFS) Export(mountPath string, port int) error {
 		ReadOnly: s.policy.Load().ReadOnly,
 		Port:     port,
 		Hostname: "localhost",
+		// Standard ONC RPC over TCP uses record marking (RFC 1831 section 10)
+		UseRecordMarking: true,
 	})
 	if err != nil {
 		return err
